@@ -113,7 +113,7 @@ def run_check(pid, tier="quick", seed=0, replay=None):
         return 2
     bins = {"debug": hbin}
 
-    gate = core.proof_gate(pid)
+    gate = core.proof_gate(pid, thorough=(tier == "thorough" and not replay))
     model_bins = {}
     model_ok = True
     for area in getattr(prop, "AREAS", []):
@@ -315,6 +315,7 @@ def run_check(pid, tier="quick", seed=0, replay=None):
             "theorems": gate["theorems"],
             "axioms_per_theorem": gate["axioms"],
             "gate_failures": gate["failures"],
+            "coqchk_axioms": gate.get("coqchk_axioms"),
             "evaluations": total,
             "distinct_nontrivial": nontrivial,
             "rule": getattr(prop, "RULE", ""),
